@@ -181,9 +181,12 @@ class Algebra:
     """Converter with its own relation set.  `subs` maps symbol names to terms or
     Rats (used to apply hypotheses such as default values)."""
 
-    def __init__(self, funcs_opaque=True):
+    def __init__(self, funcs_opaque=True, atomize=False):
         self.funcs_opaque = funcs_opaque
         self.cache = {}
+        self.atomize = atomize     # replace complicated trig-argument summands by fresh symbols
+        self.theta = {}            # term -> symbol name
+        self.theta_rev = {}
 
     # -- public
     def rat(self, t):
@@ -314,6 +317,8 @@ class Algebra:
         a polynomial; each monomial c*m with rational c = p/q contributes base
         (m, q) with multiplier p."""
         arg = self._strip_red_term(arg)
+        if self.atomize:
+            arg = self._atomize_arg(arg)
         r = self.rat(arg)
         n, d = self.reduce(r.n), self.reduce(r.d)
         if not d.is_const():
@@ -373,6 +378,48 @@ class Algebra:
                 others = [f for f in factors if f is not sums[0]]
                 return self._strip_red_term(T.add(*[T.mul(x, *others) for x in sums[0][1:]]))
         return fix(t)
+
+    def _atomize_arg(self, arg):
+        """Each top-level summand c*rest of a trig argument: if rest is a plain
+        symbol times d2r (or a symbol) it is kept; otherwise the summand (with a
+        non-integer c folded in) becomes a fresh symbol TH<n>.  d2r*(a+b) is
+        distributed first, so angle differences still expand."""
+        arg = self._distribute_d2r(arg)
+        summands = arg[1:] if arg[0] == "add" else (arg,)
+        out = []
+        for s in summands:
+            c, rest = T.split_coeff(s)
+            factors = rest[1:] if rest[0] == "mul" else (rest,)
+            simple = all(f[0] == "sym" or (f[0] == "call" and f[1] in ("degof", "rad") and f[2][0] == "sym") for f in factors) \
+                and len(factors) <= 2
+            if rest[0] == "num":
+                out.append(s)
+                continue
+            if simple and c.denominator == 1:
+                out.append(s)
+                continue
+            whole = s if c.denominator != 1 else rest
+            k = whole
+            if k not in self.theta:
+                name = "TH%d" % (len(self.theta) + 1)
+                self.theta[k] = name
+                self.theta_rev[name] = k
+            sym = T.sym(self.theta[k])
+            out.append(sym if c.denominator != 1 else T.mul(T.num(c), sym))
+        return T.add(*out)
+
+    def _distribute_d2r(self, t):
+        d2r = T.sym("d2r")
+        if t[0] == "add":
+            return T.add(*[self._distribute_d2r(x) for x in t[1:]])
+        if t[0] == "mul":
+            c, rest = T.split_coeff(t)
+            factors = rest[1:] if rest[0] == "mul" else (rest,)
+            sums = [f for f in factors if f[0] == "add"]
+            others = [f for f in factors if f[0] != "add"]
+            if len(sums) == 1 and others == [d2r] and c.denominator == 1:
+                return T.add(*[self._distribute_d2r(T.mul(T.num(c), x, d2r)) for x in sums[0][1:]])
+        return t
 
     def sincos_sum(self, comps):
         if not comps:
